@@ -377,6 +377,30 @@ def r144(prog, chk, summ):
         chk.ob("R14.4", f"{m.short}|mutating paths report", not bad, where(m),
                detail=f"{len(mut_nodes)} mutation event(s); none reaches a constant False/None return",
                message=f"{m.short}: after `{T(bad[0][0], 50) if bad else ''}` a path returns False/None: the glyph is changed but not reported as modified")
+    # a verdict computed by comparing the glyph with itself before / after the change is a proxy: it misses changes the
+    # comparison does not see (components removed although no contour was added)
+    k = 0
+    for fi in prog.ix.functions.values():
+        if not fi.module.name.startswith("ufo2ft.filters") or isinstance(fi.node, ast.Lambda) or fi.parent is not None:
+            continue
+        if not (fi.name == "filter" or fi.cls is None):
+            continue
+        rets = [r for r in A.returns_of(fi.node) if r.value is not None and (isinstance(r.value, ast.Compare) or (isinstance(r.value, (ast.BoolOp, ast.UnaryOp)) and any(isinstance(x, ast.Compare) for x in ast.walk(r.value))))]
+        if not rets:
+            continue
+        cfg = prog.cfg(fi)
+        evs = [(node, cfg.node_of(node)) for node, root in mutation_events(prog, fi, summ) if root not in ("<local>",) or _touches_glyph(prog, fi, node)]
+        for r in rets:
+            rn = cfg.node_of(r)
+            # the comparison has to measure what the change touches: a change that removes components is not seen by a count
+            # of contours (a count of anchors does see appended anchors)
+            hit = [node for node, mn in evs if mn is not None and (mn == rn or cfg.exists_path(mn, [rn]))
+                   and isinstance(node, ast.Call) and A.callee_name(node) in ("decomposeCompositeGlyph", "removeComponent", "clearComponents")
+                   and not any(isinstance(x, ast.Attribute) and x.attr == "components" for x in ast.walk(r.value))]
+            k += 1
+            chk.ob("R14.4", f"{fi.short}|{A.keytext(fi.node, r)}|a verdict is not a before / after comparison", not hit, where(fi, r), detail=T(r.value, 60),
+                   message=f"{fi.short}: after `{T(hit[0], 50) if hit else ''}` the verdict is computed by a comparison (`{T(r.value, 50)}`) instead of being True: changes the comparison "
+                           f"does not see (e.g. components removed without any contour being added) go unreported")
     need(n >= 10, "filter methods not found")
     chk.minimum("R14.4", 10)
 
@@ -747,6 +771,8 @@ def _CHAIN(inc, exc):
 
 
 MUTANTS = [
+    M("decompose filter reports a change only when contours were added (seeded C14m)", "ufo2ft/filters/decomposeComponents.py", "DecomposeComponentsFilter.filter",
+      "decomposeCompositeGlyph(glyph, self.context.glyphSet)\nreturn True", "numContours = len(glyph)\ndecomposeCompositeGlyph(glyph, self.context.glyphSet)\nreturn len(glyph) != numContours", rule="R14.4"),
     M("missing bases resolved from the source font's default layer through a ChainMap (seeded C14l)", "ufo2ft/filters/propagateAnchors.py", "PropagateAnchorsFilter.set_context",
       "ctx.processed = set()", "ctx.processed = set()\nctx.glyphSet = ChainMap(glyphSet, font.layers.defaultLayer)", rule="R14.5",
       also=(("ufo2ft/filters/propagateAnchors.py", "", "<append-module>", "from collections import ChainMap\n"),)),
